@@ -44,6 +44,9 @@ type Fn struct {
 	// PostFacts: formulas that hold right after the given CFG node (facts
 	// established by a rule outside the engine, e.g. an allocation summary)
 	PostFacts map[ast.Node]*Formula
+	// KeepDead keeps facts about dead and out-of-scope local variables in all
+	// analyses of this function started while it is set (queries about them).
+	KeepDead bool
 }
 
 type nodeRef struct {
@@ -263,7 +266,7 @@ func (f *Fn) liveness() {
 // dropDead removes facts that mention a local variable which is dead at the entry of b.
 func (a *Analysis) dropDead(b *cfg.Block, st State) State {
 	f := a.Fn
-	if !st.Reachable() || a.KeepDead {
+	if !st.Reachable() || a.KeepDead || f.KeepDead {
 		return st
 	}
 	li := f.liveIn[b.Index]
@@ -331,7 +334,17 @@ func (f *Fn) Locate(n ast.Node) (*cfg.Block, int, ast.Node, bool) {
 		}
 	}
 	if best == nil {
-		return nil, 0, nil, false
+		// n is a composite statement (if/for/switch ...): take the first CFG node inside it
+		for cn, r := range f.where {
+			if n.Pos() <= cn.Pos() && cn.End() <= n.End() {
+				if best == nil || cn.Pos() < best.Pos() {
+					best, bref = cn, r
+				}
+			}
+		}
+		if best == nil {
+			return nil, 0, nil, false
+		}
 	}
 	return bref.b, bref.idx, best, true
 }
@@ -363,6 +376,10 @@ type Analysis struct {
 	startSt  State
 	startOut []State
 	visits   map[int32]int
+	// for range loops: the part of the loop head's in-state that comes from outside the loop
+	// (first entry) and from inside (back edges), so that the exit edge of a first entry can assume an empty operand
+	rangeEntry map[int32]State
+	rangeBack  map[int32]State
 	// StopAt: control does not continue past these CFG nodes (used for "before X" queries)
 	StopAt map[ast.Node]bool
 	// KeepDead keeps facts about dead local variables (for queries about them)
@@ -425,6 +442,27 @@ func (f *Fn) FromUntil(n ast.Node, st State, stops ...ast.Node) *Analysis {
 	return a
 }
 
+// ImplicitReturn returns the synthetic return statement go/cfg appends when
+// control can fall off the end of the body (nil if there is none).
+func (f *Fn) ImplicitReturn() *ast.ReturnStmt {
+	real := map[*ast.ReturnStmt]bool{}
+	ast.Inspect(f.Body, func(n ast.Node) bool {
+		if r, ok := n.(*ast.ReturnStmt); ok {
+			real[r] = true
+		}
+		return true
+	})
+	for _, b := range f.CFG.Blocks {
+		if !b.Live || len(b.Nodes) == 0 {
+			continue
+		}
+		if r, ok := b.Nodes[len(b.Nodes)-1].(*ast.ReturnStmt); ok && !real[r] {
+			return r
+		}
+	}
+	return nil
+}
+
 // BlockOf returns the CFG block holding the node containing n.
 func (f *Fn) BlockOf(n ast.Node) *cfg.Block {
 	b, _, _, ok := f.Locate(n)
@@ -484,13 +522,41 @@ func (a *Analysis) run(start *cfg.Block, idx int, init State) {
 		work = work[1:]
 		inWork[b.Index] = false
 		in := Unreachable()
+		inEntry, inBack := Unreachable(), Unreachable()
+		rs, isRange := b.Stmt.(*ast.RangeStmt)
+		isRange = isRange && b.Kind == cfg.KindRangeLoop
 		for _, e := range f.preds[b.Index] {
+			contrib := Unreachable()
 			if outs, ok := a.out[e.from.Index]; ok && e.succ < len(outs) {
-				in = Join(in, outs[e.succ])
+				contrib = Join(contrib, outs[e.succ])
 			}
 			if e.from == start && e.succ < len(a.startOut) {
-				in = Join(in, a.startOut[e.succ])
+				contrib = Join(contrib, a.startOut[e.succ])
 			}
+			in = Join(in, contrib)
+			if isRange {
+				inside := false
+				if len(e.from.Nodes) > 0 {
+					inside = contains(rs.Body, e.from.Nodes[0])
+				} else if e.from.Stmt != nil && e.from.Stmt != ast.Stmt(rs) {
+					inside = contains(rs.Body, e.from.Stmt)
+				}
+				if inside {
+					inBack = Join(inBack, contrib)
+				} else {
+					inEntry = Join(inEntry, contrib)
+				}
+			}
+		}
+		splitChanged := false
+		if isRange {
+			if a.rangeEntry == nil {
+				a.rangeEntry, a.rangeBack = map[int32]State{}, map[int32]State{}
+			}
+			if a.rangeEntry[b.Index].Key() != inEntry.Key() || a.rangeBack[b.Index].Key() != inBack.Key() {
+				splitChanged = true
+			}
+			a.rangeEntry[b.Index], a.rangeBack[b.Index] = inEntry, inBack
 		}
 		in = a.scopeExit(b, in)
 		in = a.dropDead(b, in)
@@ -501,7 +567,7 @@ func (a *Analysis) run(start *cfg.Block, idx int, init State) {
 			} else if a.visits[b.Index] > 6 {
 				in = Join(old, in)
 			}
-			if old.Key() == in.Key() {
+			if old.Key() == in.Key() && !splitChanged {
 				continue
 			}
 		}
@@ -517,10 +583,12 @@ func (a *Analysis) run(start *cfg.Block, idx int, init State) {
 	}
 }
 
+func (a *Analysis) visitsOf(b *cfg.Block) int { return a.visits[b.Index] }
+
 // scopeExit drops facts about variables whose scope ends when control reaches
 // the done-block of the statement that declared them (they are dead there).
 func (a *Analysis) scopeExit(b *cfg.Block, st State) State {
-	if !st.Reachable() {
+	if !st.Reachable() || a.Fn.KeepDead {
 		return st
 	}
 	f := a.Fn
@@ -604,6 +672,16 @@ func (a *Analysis) flowBlock(b *cfg.Block, idx int, st State) []State {
 		if rs != nil {
 			body = a.rangeEnter(st, rs)
 			done = a.rangeKill(st, rs)
+			// a first entry leaves the loop at once only if the operand is empty
+			if ent, ok := a.rangeEntry[b.Index]; ok && a.visitsOf(b) > 0 {
+				if xt := f.Info.TypeOf(rs.X); xt != nil {
+					switch xt.Underlying().(type) {
+					case *types.Slice, *types.Map, *types.Array:
+						empty := FEq(LenOf(f.Eng.Canon.Term(f.Info, rs.X)), ConstInt(0))
+						done = Join(a.rangeKill(a.dropDead(b, a.scopeExit(b, ent)).Assume(empty), rs), a.rangeKill(a.dropDead(b, a.scopeExit(b, a.rangeBack[b.Index])), rs))
+					}
+				}
+			}
 		}
 		outs[0], outs[1] = body, done
 	default:
